@@ -407,6 +407,10 @@ def _configure_node(var, data, nodemap, model):
                 continue  # prefer (a) over (a /) when concept is missing
             edges.insert(0, ('/', target, epis))
         else:
+            established = nodemap.get(target)
+            if push and established is not None and established[0] == target:
+                push = False  # the node already exists; don't open it twice
+                surprising = True
             if push:
                 nodemap[target] = (target, [])
                 target, _surprising = _configure_node(
